@@ -171,8 +171,10 @@ def run_line(ctx, case):
     s = line(dur)
   n = round_half_up(dur)
   den = frac(dur) - (1 if finish else 0)
-  slope = (frac(end) - frac(begin)) / den
+  slope = (frac(end) - frac(begin)) / den if n else Fraction(0)  # no samples
   want = seg(n, frac(begin), slope)
+  if dur == 0:
+    ctx.count("line:zero-duration")
   got, exc, hit = drain(s, n + 3)
   scale = 1 + abs(frac(begin)) + abs(frac(end))
   ctx.count("line:finish" if finish else "line:nofinish")
@@ -193,10 +195,12 @@ def run_fade(ctx, case):
   _, which, dur = case
   n = round_half_up(dur)
   d = frac(dur)
+  if n == 0:
+    ctx.count("fade:no-sample")
   if which == "in":
-    s, want = fadein(dur), seg(n, Fraction(0), 1 / d)
+    s, want = fadein(dur), seg(n, Fraction(0), 1 / d if n else d)
   else:
-    s, want = fadeout(dur), seg(n, Fraction(1), -1 / d)
+    s, want = fadeout(dur), seg(n, Fraction(1), -1 / d if n else d)
   got, exc, hit = drain(s, n + 3)
   ctx.count("fade:" + which)
   compare_seq(ctx, case, "fade" + which, got, exc, hit, want, False,
@@ -311,15 +315,20 @@ def adsr_shape(a, d, s, r=None, ls=0):
   attack 0->1 over a, decay 1->s over d, [sustain, release s->0 over r]."""
   a, d, s = frac(a), frac(d), frac(s)
   la, ld = round_half_up(a), round_half_up(d)
-  out = seg(la, Fraction(0), 1 / a) + seg(ld, Fraction(1), (s - 1) / d)
+  slope = lambda num, den, n: num / den if n else Fraction(0)  # no samples
+  out = seg(la, Fraction(0), slope(1, a, la)) + \
+        seg(ld, Fraction(1), slope(s - 1, d, ld))
   if r is not None:
     r = frac(r)
-    out += [s] * ls + seg(round_half_up(r), s, -s / r)
+    lr = round_half_up(r)
+    out += [s] * ls + seg(lr, s, slope(-s, r, lr))
   return out
 
 
 def run_adsr(ctx, case):
   _, dur, a, d, s, r, style = case
+  if 0 in (round_half_up(a), round_half_up(d), round_half_up(r)):
+    ctx.count("adsr:zero-length-segment")
   if style == "kw":
     st = adsr(dur=dur, a=a, d=d, s=s, r=r)
   else:
@@ -345,6 +354,8 @@ def run_adsr(ctx, case):
 
 def run_attack(ctx, case):
   _, a, d, s, how = case
+  if 0 in (round_half_up(a), round_half_up(d)):
+    ctx.count("attack:zero-length-segment")
   if is_stream_spec(s):
     items = list(s[1])
     s0 = items[0]
@@ -902,16 +913,17 @@ def gen_line(rng):
     finish = False if style == "nofinish" else rng.random() < 0.5
   while True:
     dur = r_dur(rng, rng.choice([5, 40, 300]))
-    if frac(dur) != (1 if finish else 0):   # closed form defined
+    # closed form defined - or never evaluated because there is no sample
+    if frac(dur) != (1 if finish else 0) or round_half_up(dur) == 0:
       break
   return ("line", dur, begin, end, finish, style)
 
 
 def gen_fade(rng):
-  while True:
-    dur = r_dur(rng, rng.choice([5, 40, 300]))
-    if dur != 0:
-      return ("fade", rng.choice(["in", "out"]), dur)
+  dur = r_dur(rng, rng.choice([5, 40, 300]))
+  if rng.random() < 0.05:
+    dur = rng.choice([0, 0.0, Fraction(0), 0.25])
+  return ("fade", rng.choice(["in", "out"]), dur)
 
 
 def gen_const(rng):
@@ -962,8 +974,11 @@ def gen_noise(rng):
 
 
 def r_seglen(rng):
-  """Positive segment duration (0 would divide by zero in the closed form)."""
+  """Segment duration; now and then 0 or below one half (no sample at all:
+  the closed form is never evaluated there)."""
   c = rng.random()
+  if c < 0.08:
+    return rng.choice([0, 0, 0.0, Fraction(0), 0.25, Fraction(3, 8)])
   if c < 0.6:
     return rng.randint(1, 12)
   if c < 0.8:
@@ -1291,6 +1306,10 @@ def finish(ctx):
   ctx.need("mc:step_multiple_of_modulo", 50)
   ctx.need("mc:class_E", 100)
   ctx.need("mc:class_D", 100)
+  ctx.need("line:zero-duration", 5)
+  ctx.need("fade:no-sample", 3)
+  ctx.need("adsr:zero-length-segment", 10)
+  ctx.need("attack:zero-length-segment", 5)
   ctx.need("line:finish", 30)
   ctx.need("line:nofinish", 30)
   ctx.need("line:fractional_dur", 20)
